@@ -94,6 +94,8 @@ func (sn *serviceBuilder) accept(visitor ServiceFileVisitor) error {
 			return fmt.Errorf("method %s request: %w", method.Name, err)
 		}
 
+		requestNode.ListRequest = method.ListRequest
+
 		if err := visitor.VisitObject(requestNode); err != nil {
 			return fmt.Errorf("method %s request: %w", method.Name, err)
 		}
